@@ -334,6 +334,8 @@ func init() {
 					func() ref.Node { return &ref.Transform{Pattern: rvar(""), Update: robj("z", rnum(1))} },    // transform
 					func() ref.Node { return rnum(5) },                                                          // not a function
 					func() ref.Node { return rvar("string") },
+					func() ref.Node { return rlambda(rpath(rvar("v"), rname("nothing")), "v") }, // a stage that yields no value
+					func() ref.Node { return rvar("exists") },                                   // a stage that maps no value to a value
 				}
 				starts := []func() ref.Node{func() ref.Node { return rp("n") }, func() ref.Node { return rp("b") }, func() ref.Node { return rarr(rnum(1), rnum(2)) },
 					func() ref.Node { return rvar("sum") }, func() ref.Node { return rp("nothing") }}
@@ -367,6 +369,39 @@ func init() {
 				}
 				c.Done()
 				stmts = append(stmts, rarr(calls...))
+				c12Compare(x, &ref.Paren{Exprs: stmts}, c12Doc)
+			}},
+			{Name: "rebinding-histories", Quick: []int{2, 3, 4, 5}, Thorough: []int{2, 3, 4, 5, 6}, ShardDepth: 3, Run: func(c *explore.Chooser, x *explore.Ctx, n int) {
+				// closures made directly, through an inner block and by a function that returns a function; calls and
+				// rebindings of the free variable in every order: a call always sees the current binding of the
+				// defining scope, and the inner bindings ($a) stay what they were when the closure was made
+				mk := rassign("mk", rlambda(rlambda(rarr(rvar("x"), rvar("a"))), "a"))
+				stmt := func(k int) ref.Node {
+					switch k {
+					case 0:
+						return rassign("x", rnum(1))
+					case 1:
+						return rassign("x", rnum(2))
+					case 2:
+						return rassign("g", rlambda(rarr(rvar("x"))))
+					case 3:
+						return rassign("g", &ref.Paren{Exprs: []ref.Node{rassign("a", rnum(10)), rlambda(rarr(rvar("x"), rvar("a")))}})
+					case 4:
+						return rassign("g", rcall("mk", rnum(20)))
+					case 5:
+						return rassign("r1", &ref.Call{Fn: rvar("g")})
+					case 6:
+						return rassign("r2", &ref.Call{Fn: rvar("g")})
+					default:
+						return &ref.Paren{Exprs: []ref.Node{rassign("x", rnum(7)), &ref.Call{Fn: rvar("g")}}} // rebinding in an inner block does not leak
+					}
+				}
+				stmts := []ref.Node{mk}
+				for i := 0; i < n; i++ {
+					stmts = append(stmts, stmt(c.Choose(8)))
+				}
+				c.Done()
+				stmts = append(stmts, rarr(rarr(rvar("r1")), rarr(rvar("r2")), rarr(&ref.Call{Fn: rvar("g")}), rvar("x")))
 				c12Compare(x, &ref.Paren{Exprs: stmts}, c12Doc)
 			}},
 			{Name: "chain-laws", Quick: []int{1}, ShardDepth: 2, Run: func(c *explore.Chooser, x *explore.Ctx, _ int) {
